@@ -7,6 +7,138 @@ use rand::prelude::*;
 use serde_json::{json, Map, Value};
 use std::collections::{HashMap, HashSet};
 
+/// Item-level mutation plan (C01/C13): while `count_only`, encode() records the class of every item it meets
+/// (across all calls of one build); with a target it replaces that item's bytes as the descriptor says.
+#[derive(Debug, Clone, Default)]
+pub struct MutPlan {
+    pub target: Option<(usize, usize)>, // (global item index, byte index inside a literal)
+    pub desc: Value,
+    pub next: usize,
+    pub seen: Vec<(String, String, usize)>, // (kind, type, literal length)
+    pub applied: bool,
+}
+
+thread_local! {
+    pub static MUT: std::cell::RefCell<Option<MutPlan>> = const { std::cell::RefCell::new(None) };
+}
+
+fn width_of(ty: &str) -> usize {
+    match ty {
+        "u8" | "i8" => 1,
+        "u16le" | "u16be" => 2,
+        "u64le" => 8,
+        _ => 4,
+    }
+}
+
+/// bytes of a mutated item, None = the descriptor does not change this item's encoding
+fn mutate_item(rng: &mut StdRng, it: &Value, desc: &Value, sub: usize, normal: &[u8]) -> Option<Vec<u8>> {
+    let op = desc["op"].as_str()?;
+    let ty = it["ty"].as_str().unwrap_or("");
+    match op {
+        "set_num" => {
+            let w = width_of(ty);
+            let be = ty.ends_with("be");
+            // most significant byte first, then flipped for little endian
+            let mut v: Vec<u8> = match desc["b"].as_str()? {
+                "zero" => vec![0; w],
+                "one" => { let mut x = vec![0; w]; x[w - 1] = 1; x }
+                "max" => vec![0xff; w],
+                "maxminus1" => { let mut x = vec![0xff; w]; x[w - 1] = 0xfe; x }
+                "signbit" => { let mut x = vec![0; w]; x[0] = 0x80; x }
+                _ => { let mut x = vec![0xff; w]; x[0] = 0x7f; x }
+            };
+            if !be {
+                v.reverse();
+            }
+            Some(v)
+        }
+        "set_textnum" => Some(
+            match desc["b"].as_str()? {
+                "empty" => "",
+                "minus1" => "-1",
+                "huge" => "99999999999999999999",
+                "letters" => "abc",
+                "plus" => "+5",
+                "space" => " 5",
+                _ => "0",
+            }
+            .as_bytes()
+            .to_vec(),
+        ),
+        "set_lit_byte" => {
+            let mut v = normal.to_vec();
+            if sub < v.len() {
+                v[sub] = desc["v"].as_u64()? as u8;
+            }
+            Some(v)
+        }
+        "drop_terminator" => {
+            match ty {
+                "cstr" => Some(normal[.. normal.len() - 1].to_vec()),
+                "ustr" => {
+                    // keep the length byte, drop the final NUL / 0000 unit
+                    let cut = if normal[0] >= 0x80 { 2 } else { 1 };
+                    Some(normal[.. normal.len().saturating_sub(cut).max(1)].to_vec())
+                }
+                _ => None,
+            }
+        }
+        "invalid_text" => {
+            let bad: &[u8] = &[0xff, 0xfe, 0xc0];
+            match ty {
+                "cstr" => Some([&normal[.. normal.len() - 1], bad, &[0]].concat()),
+                "lp8" => {
+                    let mut body = normal[1 ..].to_vec();
+                    body.extend(bad);
+                    body.truncate(255);
+                    Some([vec![body.len() as u8], body].concat())
+                }
+                "ustr" => {
+                    if normal[0] >= 0x80 && normal.len() >= 3 {
+                        // an unpaired surrogate in place of the first unit
+                        let mut v = normal.to_vec();
+                        v[1] = 0x00;
+                        v[2] = 0xd8;
+                        Some(v)
+                    } else {
+                        None
+                    }
+                }
+                _ => Some([normal, bad].concat()),
+            }
+        }
+        "long_string" => {
+            match ty {
+                "cstr" => Some([vec![b'A'; 3000], vec![0]].concat()),
+                "lp8" => Some([vec![255u8], vec![b'A'; 255]].concat()),
+                "ustr" => Some([vec![127u8], vec![b'A'; 126], vec![0]].concat()),
+                "oneoftext" => None,
+                _ => Some(vec![b'A'; 3000]),
+            }
+        }
+        "empty_string" => {
+            match ty {
+                "cstr" => Some(vec![0]),
+                "lp8" => Some(vec![0]),
+                "ustr" => Some(vec![0]),
+                _ => Some(vec![]),
+            }
+        }
+        "set_length_prefix" => {
+            let mut v = normal.to_vec();
+            if !v.is_empty() {
+                v[0] = desc["v"].as_u64()? as u8;
+            }
+            Some(v)
+        }
+        _ => {
+            let _ = rng;
+            None
+        }
+    }
+}
+
 #[derive(Debug, Clone)]
 pub struct Encoded {
     pub bytes: Vec<u8>,
@@ -340,6 +472,59 @@ pub fn encode(rng: &mut StdRng, items: &[Value], fixed: &HashMap<String, (Value,
     let mut lenrest: Option<(usize, String)> = None;
     for it in items {
         offsets.push(bytes.len());
+        let item_start = bytes.len();
+        // mutation plan bookkeeping
+        let (gi, target) = MUT.with(|m| {
+            let mut m = m.borrow_mut();
+            match m.as_mut() {
+                None => (0usize, None),
+                Some(p) => {
+                    let gi = p.next;
+                    p.next += 1;
+                    let litlen = it["b"].as_array().map_or(0, |a| a.len());
+                    p.seen.push((
+                        it["k"].as_str().unwrap_or("").to_string(),
+                        it["ty"].as_str().unwrap_or("").to_string(),
+                        litlen,
+                    ));
+                    let t = match p.target {
+                        Some((ti, sub)) if ti == gi => Some((p.desc.clone(), sub)),
+                        _ => None,
+                    };
+                    (gi, t)
+                }
+            }
+        });
+        let _ = gi;
+        if let Some((desc, _)) = &target {
+            if it["k"] == "j" && desc["op"] == "json_value" {
+                // JSON member replaced / removed
+                let ptr = it["ptr"].as_str().unwrap().to_string();
+                let v = match desc["v"].as_str().unwrap_or("") {
+                    "null" => Some(Value::Null),
+                    "string" => Some(json!("x")),
+                    "number_neg" => Some(json!(-1)),
+                    "number_huge" => Some(json!(18446744073709551615u64)),
+                    "float" => Some(json!(1.5)),
+                    "object" => Some(json!({"a": 1})),
+                    "array" => Some(json!([1, "a", null])),
+                    "bool" => Some(json!(true)),
+                    "deep" => {
+                        let mut v = json!(1);
+                        for _ in 0 .. 300 {
+                            v = json!([v]);
+                        }
+                        Some(v)
+                    }
+                    _ => None,
+                };
+                if let Some(v) = v {
+                    values.insert(ptr, v);
+                }
+                MUT.with(|m| m.borrow_mut().as_mut().unwrap().applied = true);
+                continue;
+            }
+        }
         match it["k"].as_str().expect("item kind") {
             "lit" => bytes.extend(it["b"].as_array().unwrap().iter().map(|x| x.as_u64().unwrap() as u8)),
             "txt" => bytes.extend(it["s"].as_str().unwrap().as_bytes()),
@@ -389,6 +574,14 @@ pub fn encode(rng: &mut StdRng, items: &[Value], fixed: &HashMap<String, (Value,
                 values.insert(ptr, v);
             }
             k => panic!("unknown item kind {k}"),
+        }
+        if let Some((desc, sub)) = target {
+            let normal = bytes[item_start ..].to_vec();
+            if let Some(m) = mutate_item(rng, it, &desc, sub, &normal) {
+                bytes.truncate(item_start);
+                bytes.extend(m);
+                MUT.with(|p| p.borrow_mut().as_mut().unwrap().applied = true);
+            }
         }
     }
     if let Some((at, ty)) = lenrest {
@@ -466,14 +659,16 @@ pub fn expected(expect: &[Value], values: &HashMap<String, Value>) -> Value {
         let tr = e["tr"].as_str().expect("expect transform");
         let src = || {
             let name = e["src"].as_str().expect("expect src");
-            values
-                .get(name)
-                .unwrap_or_else(|| panic!("expect refers to field {name} which is not on the wire"))
-                .clone()
+            // (grounding of every source is an invariant of the layout specs; a field can only be missing
+            // here when a hostile mutation removed it, in which case no expectation is used)
+            values.get(name).cloned().unwrap_or(Value::Null)
         };
         match tr {
             "id" => set_path(&mut root, path, src()),
             "eq1" => set_path(&mut root, path, json!(src().as_u64() == Some(1))),
+            _ if e.get("src").is_some() && !values.contains_key(e["src"].as_str().unwrap_or("")) => {
+                set_path(&mut root, path, Value::Null)
+            }
             "ne0" => set_path(&mut root, path, json!(src().as_u64() != Some(0))),
             "low24" => set_path(&mut root, path, json!(src().as_u64().unwrap() & 0xff_ffff)),
             "str" => {
@@ -509,7 +704,7 @@ pub fn expected(expect: &[Value], values: &HashMap<String, Value>) -> Value {
                 }
             }
             "entry" => {
-                let key = values[e["key"].as_str().unwrap()].as_str().expect("map key is text").to_string();
+                let key = values.get(e["key"].as_str().unwrap()).and_then(|k| k.as_str()).unwrap_or("").to_string();
                 let v = src();
                 let slot = get_path_mut(&mut root, path);
                 if !slot.is_object() {
